@@ -93,7 +93,7 @@ type Job struct {
 	Unconfirmed int
 	Wall       float64
 	NoReplay   bool
-	NoStub     bool
+	NoStub     string
 	PathSamples []string
 }
 
